@@ -25,6 +25,10 @@ def drm_selection(rng, allow_none: bool = True) -> str | None:
         return None
     if r < 0.45:
         return 'all'
+    if r < 0.53:
+        # every system, restricted to some locations
+        locs = [loc for loc in DRM_LOCATIONS if rng.random() < 0.5] or [rng.choice(DRM_LOCATIONS)]
+        return 'all-' + '-'.join(locs)
     systems = [s for s in DRM_SYSTEMS if rng.random() < 0.5] or [rng.choice(DRM_SYSTEMS)]
     parts = []
     for s in systems:
